@@ -259,6 +259,9 @@ def check(ctx):
                         apps = gfind(gf, lambda x: isinstance(x, ast.Call) and call_name(x) == "self._tasks.append" and len(x.args) == 1 and src(x.args[0]) == recv)
                         if apps and gf.must_precede(apps, ns) is None and qn == "Cooperator._addTask":
                             ok = True  # _addTask is only applied to unfinished tasks (rule add/only-unfinished)
+                if not ok and cname == "Cooperator" and nest_depth == 0 and isinstance(c.func.value, ast.Subscript) and src(c.func.value.value) == "self._tasks" \
+                        and ns and all(gf.guarded(n, lambda e: src(e) == "self._tasks", True) for n in ns):
+                    ok = True  # an element of the non-empty runnable list: in _tasks  =>  not complete
                 ctx.check(ok, "complete/once", key,
                           "_completeWith can run on a task that is already complete: every whenDone Deferred is fired a second time "
                           "(AlreadyCalledError) and the completion state is overwritten")
@@ -659,6 +662,21 @@ def check(ctx):
         ctx.check(bool(flag) and bool(comps) and w is None, "stop/flag-before-completions", q,
                   "tasks are completed before the cooperator is marked stopped: a whenDone callback adding a task gets it scheduled on a stopped cooperator",
                   witness=g.describe(w))
+        # every runnable task is completed: a loop over (a snapshot of) the list completing its loop variable, or a loop that keeps
+        # completing an element of the live list until the list is empty (each completion removes the element: complete/leaves-runnable-set)
+        every = False
+        shape = ""
+        for lp in [n for n in body_walk(f) if isinstance(n, ast.For) and isinstance(n.target, ast.Name)
+                   and (src(n.iter) == "self._tasks" or _snapshot_of(n.iter, "self._tasks"))]:
+            if any(isinstance(x, ast.Call) and call_attr(x) == "_completeWith" and src(x.func.value) == lp.target.id for st in lp.body for x in ast.walk(st)):
+                every, shape = True, "for-loop over the runnable list"
+        for t in g.ids(lambda n: n.kind == "test" and src(n.ast) == "self._tasks" and isinstance(getattr(n.ast, "_parent", None), ast.While)):
+            heads = [n for n in comps if isinstance(next(x for x in ast.walk(g.node(n).ast) if isinstance(x, ast.Call) and call_attr(x) == "_completeWith").func.value, ast.Subscript)]
+            ts = [d for d, l in g.succ[t] if l == "T"]
+            if heads and must_pass(g, ts, heads, to=[t, g.exit], exc=False) is None and g.path(ts, [g.exit], avoid={t}, edge_ok=no_exc) is None:
+                every, shape = True, "while the list is non-empty, complete one of its elements"
+        ctx.check(every, "stop/completes-every-task", q, "Cooperator.stop() does not complete every runnable task with SchedulerStopped (their whenDone / coiterate "
+                  "Deferreds never fire)", detail=shape)
         canc = gfind(g, lambda x: _is_call(x, "self._delayedCall.cancel"))
         ctx.check(bool(canc) and all(guarded_not_none(g, n, "self._delayedCall") for n in canc), "stop/cancels-tick", q, "stop() does not cancel the pending tick (only when one is pending)")
 
@@ -725,6 +743,7 @@ MUTANTS = [
     Mutant("remove-cancels-tick-with-work-left", TASK, "        if not self._tasks and self._delayedCall:\n", "        if self._delayedCall:\n", expect_rule="remove/cancel-only-when-idle"),
     Mutant("cancelled-tick-remembered", TASK, "        if not self._tasks and self._delayedCall:\n            self._delayedCall.cancel()\n            self._delayedCall = None\n",
            "        if not self._tasks and self._delayedCall:\n            self._delayedCall.cancel()\n", expect_rule="tick/cancelled-call-forgotten"),
+    Mutant("stop-forgets-tasks-without-completing", TASK, _STOPLOOP, "        self._tasks = []\n", expect_rule="stop/"),
     Mutant("coiterate-unchained", TASK, "        whenDone.chainDeferred(doneDeferred)\n        return doneDeferred\n", "        whenDone.addErrback(doneDeferred.errback)\n        return doneDeferred\n",
            expect_rule="coiterate/chained-to-whenDone"),
     Mutant("second-live-loop-over-tasks", TASK, "        self._stopped = False\n        self._started = True\n",
@@ -735,6 +754,8 @@ SILENT = [
     Silent("F11-repaired-by-guard", TASK, "                def failLater(failure: Failure) -> None:\n                    self._completeWith(TaskFailed(), failure)\n",
            "                def failLater(failure: Failure) -> None:\n                    if self._completionState is None:\n                        self._completeWith(TaskFailed(), failure)\n"),
     Silent("F11b-repaired-by-snapshot", TASK, _STOPLOOP, _STOPLOOP.replace("in self._tasks:", "in list(self._tasks):")),
+    Silent("F11b-repaired-by-draining-from-the-head", TASK, _STOPLOOP,
+           "        while self._tasks:\n            self._tasks[0]._completeWith(SchedulerStopped(), Failure(SchedulerStopped()))\n        self._tasks = []\n"),
     Silent("pause-count-compared-flipped", TASK, "        if self._pauseCount == 1:\n            self._cooperator._removeTask(self)\n",
            "        if 1 == self._pauseCount:\n            self._cooperator._removeTask(self)\n"),
     Silent("complete-tests-count-explicitly", TASK, "        if not self._pauseCount:\n            self._cooperator._removeTask(self)\n", "        if self._pauseCount == 0:\n            self._cooperator._removeTask(self)\n"),
